@@ -1,8 +1,28 @@
 /- GENERATED from lean/obligations.json by /verif/check. `lake env lean GoSquare/Audit.lean` prints the
    axioms every registered property theorem depends on; accepted: propext, Classical.choice, Quot.sound. -/
 import GoSquare.Properties.C13
+import GoSquare.Properties.C15
+import GoSquare.Properties.C18
 #print axioms GoSquare.C13.counter_history
 #print axioms GoSquare.C13.add_increment
 #print axioms GoSquare.C13.add_revert
 #print axioms GoSquare.C13.compact_inverse
 #print axioms GoSquare.C13.sparse_inverse
+#print axioms GoSquare.C15.roundUp_least_pow2
+#print axioms GoSquare.C15.roundDown_greatest_pow2
+#print axioms GoSquare.C15.isPowerOfTwo_spec
+#print axioms GoSquare.C15.minSquare_least
+#print axioms GoSquare.C15.minSquare_zero
+#print axioms GoSquare.C15.minSquare_beyond
+#print axioms GoSquare.C15.subTreeWidth_spec
+#print axioms GoSquare.C15.nextShareIndex_least
+#print axioms GoSquare.C15.subTreeWidth_pos
+#print axioms GoSquare.C15.mmr_spec
+#print axioms GoSquare.ceilSqrtF64_exact
+#print axioms GoSquare.C18.compare_spec
+#print axioms GoSquare.C18.compare_total_order
+#print axioms GoSquare.C18.predicates_spec
+#print axioms GoSquare.C18.classification_spec
+#print axioms GoSquare.C18.validateForBlob_spec
+#print axioms GoSquare.C18.new_spec
+#print axioms GoSquare.C18.fromBytes_spec
